@@ -485,8 +485,8 @@ func init() {
 		ID: "C10", Level: "exploration",
 		Rule:        "PRNG histories of register / registerTLD / transfer (other, self, contract) / renew (1..10, 0, 11, default overload) / setAdmin over 10 names of level 2-4 under a long-lived and a short-lived TLD, 3 users and a contract owner, the clock stepped by seconds and onto the instants exp-1 / exp / exp+1 of live names and TLDs; the shared NNS reference model predicts outcome and notifications; after every operation totalSupply, raw sum of balances, balanceOf, tokensOf, tokens and isAvailable / ownerOf / properties of every pool name (also at the three boundary instants) are compared. distinct = (method, signers, reason, outcome).",
 		Assumptions: append(tb, "isAvailable under an expired or missing parent chain is logged, not judged"),
-		Batches:     tier(192, 2048), Helpers: []string{"holder"}, Chunk: 8,
-		Floors: []string{"register:ok", "register:false", "takeover-of-expired-name", "transfer:ok", "transfer:false", "renew:ok", "renew:fail", "isAvailable@exp-1", "isAvailable@exp", "isAvailable@exp+1", "ownerOf-answers@exp-1", "ownerOf-refuses-under-expired-parent", "parent-tld-boundary", "setAdmin:ok"},
+		Batches:     tier(192, 2048), Helpers: []string{"holder", "registrar"}, Chunk: 8,
+		Floors: []string{"bought-through-a-re-entering-contract", "register:ok", "register:false", "takeover-of-expired-name", "transfer:ok", "transfer:false", "renew:ok", "renew:fail", "isAvailable@exp-1", "isAvailable@exp", "isAvailable@exp+1", "ownerOf-answers@exp-1", "ownerOf-refuses-under-expired-parent", "parent-tld-boundary", "setAdmin:ok"},
 		Run:    runC10,
 	})
 	runner.Register(&runner.Check{
@@ -495,7 +495,7 @@ func init() {
 		Assumptions: tb,
 		Batches:     tier(192, 2048), Helpers: []string{"holder"}, Chunk: 8,
 		Floors: []string{"addRecord:accepted-by-owner", "addRecord:accepted-by-admin", "addRecord:refused-by-former-owner", "addRecord:refused-by-former-admin", "addRecord:refused-by-stranger", "addRecord:refused-by-parent-owner",
-			"transfer:accepted-by-owner", "transfer:refused-by-admin", "setAdmin:accepted-by-owner+new-admin", "setAdmin:refused-by-owner-without-new-admin", "setAdmin:refused-by-admin+new-admin",
+			"admin-dismissed", "transfer:accepted-by-owner", "transfer:refused-by-admin", "setAdmin:accepted-by-owner+new-admin", "setAdmin:refused-by-owner-without-new-admin", "setAdmin:refused-by-admin+new-admin",
 			"renew:accepted-by-owner", "renew:accepted-by-admin", "renew:refused-by-stranger", "renew:accepted-by-committee", "renew:refused-by-alphabet", "updateSOA:refused-by-stranger", "deleteRecords:accepted-by-admin", "deleteRecords:refused-by-stranger", "setRecord:refused-by-stranger",
 			"register:accepted-by-new-owner+parent-controller", "register:refused-by-another-user", "register:refused-by-parent-owner-only", "registerTLD:accepted-by-tld-caller", "registerTLD:refused-by-tld-caller", "re-registration-of-expired-name-by-another"},
 		Run: runC11,
